@@ -139,9 +139,112 @@ fn parse_key(s: &str) -> Result<Key, String> {
     }).collect()
 }
 
+// ------------------------------------------------ printing through every route of std::fmt
+
+/// a `fmt::Write` sink that fails once `cap` bytes have been written
+struct Limited {
+    buf: String,
+    cap: usize,
+}
+
+impl std::fmt::Write for Limited {
+    fn write_str(&mut self, s: &str) -> std::fmt::Result {
+        if self.buf.len() + s.len() > self.cap {
+            let mut room = self.cap - self.buf.len();
+            while !s.is_char_boundary(room) {
+                room -= 1;
+            }
+            self.buf.push_str(&s[..room]);
+            return Err(std::fmt::Error);
+        }
+        self.buf.push_str(s);
+        Ok(())
+    }
+}
+
+/// the object printed with format flags (a Display impl may pad; it must not print
+/// something that reads as another function)
+fn flagged(d: &dyn std::fmt::Display) -> Vec<(&'static str, String)> {
+    vec![
+        ("{:4}", format!("{:4}", d)),
+        ("{:>14}", format!("{:>14}", d)),
+        ("{:<14}", format!("{:<14}", d)),
+        ("{:*^21}", format!("{:*^21}", d)),
+        ("{:+}", format!("{:+}", d)),
+        ("{:.3}", format!("{:.3}", d)),
+        ("{:.0}", format!("{:.0}", d)),
+        ("{:#}", format!("{:#}", d)),
+        ("{:6.2}", format!("{:6.2}", d)),
+    ]
+}
+
+/// One object (a) printed (1) with format flags, (2) into sinks that fail after k bytes for
+/// every k, each failure followed by printing (a) and a second object (b) again: every text
+/// obtained must still read as the object's function.
+fn check_modes(kind: &str, n: usize, a: &Key, b: &Key) -> Verdict {
+    use std::fmt::Write as _;
+    fn build(kind: &str, n: usize, k: &Key) -> (Box<dyn std::fmt::Display>, Box<dyn Fn(usize) -> bool>, BTreeSet<usize>) {
+        let own = vars_of(&k.iter().filter(|(p, q)| kind == "soes" || kind == "ecube" || p & q == 0).flat_map(|(p, q)| [*p, if kind == "soes" || kind == "ecube" { 0 } else { *q }]).collect::<Vec<u32>>());
+        match kind {
+            "cube" => {
+                let c = cube_of(k[0].0, k[0].1);
+                (Box::new(c), Box::new(move |m| c.value(m)), own)
+            }
+            "ecube" => {
+                let c = ecube_of(k[0].0, k[0].1 != 0);
+                (Box::new(c), Box::new(move |m| c.value(m)), own)
+            }
+            "sop" => {
+                let s = Sop::from_cubes(n, k.iter().map(|(p, q)| cube_of(*p, *q)).collect());
+                let s2 = s.clone();
+                (Box::new(s), Box::new(move |m| s2.value(m)), own)
+            }
+            "esop" => {
+                let s = Esop::from_cubes(n, k.iter().map(|(p, q)| cube_of(*p, *q)).collect());
+                let s2 = s.clone();
+                (Box::new(s), Box::new(move |m| s2.value(m)), own)
+            }
+            _ => {
+                let s = Soes::from_cubes(n, k.iter().map(|(p, q)| ecube_of(*p, *q != 0)).collect());
+                let s2 = s.clone();
+                (Box::new(s), Box::new(move |m| s2.value(m)), own)
+            }
+        }
+    }
+    match guarded(|| {
+        let (da, va, owna) = build(kind, n, a);
+        let (db, vb, ownb) = build(kind, n, b);
+        let ta = da.to_string();
+        check_text(kind, &ta, &*va, &owna)?;
+        for (spec, text) in flagged(&*da) {
+            let core = text.trim_matches(|c| c == ' ' || c == '*');
+            let core = if core.is_empty() && !text.is_empty() && ta.is_empty() { "" } else { core };
+            if let Err(e) = check_text(kind, core, &*va, &owna) {
+                return fail(format!("printed with {}: {}", spec, e.0), format!("{:?} ({})", text, e.1));
+            }
+        }
+        for cap in 0..ta.len() {
+            let mut sink = Limited { buf: String::new(), cap };
+            let _ = write!(sink, "{}", &*da);
+            // whatever happened to that write, the next prints are prints of a and of b
+            for (d, v, own, who) in [(&da, &va, &owna, "the same object"), (&db, &vb, &ownb, "another object")] {
+                let t2 = d.to_string();
+                if let Err(e) = check_text(kind, &t2, &**v, own) {
+                    return fail(format!("after a write of {:?} into a sink that failed after {} bytes, printing {}: {}", ta, cap, who, e.0), format!("{:?} ({})", t2, e.1));
+                }
+            }
+        }
+        Ok(())
+    }) {
+        Ok(v) => v,
+        Err(e) => fail("formatting returns", e),
+    }
+}
+
 pub fn replay(case: &Case) -> Result<Verdict, String> {
     let h = |k: &str| -> Result<u32, String> { u32::from_str_radix(case.get(k)?, 16).map_err(|e| e.to_string()) };
     Ok(match case.get("kind")? {
+        "modes" => check_modes(case.get("what")?, case.usize("n")?, &parse_key(case.get("a")?)?, &parse_key(case.get("b")?)?),
         "cube" => check_cube(h("p")?, h("q")?).map(|_| ()),
         "ecube" => check_ecube(h("p")?, h("q")? != 0).map(|_| ()),
         "collision" => {
@@ -453,5 +556,40 @@ pub fn run(run: &Run) {
             }
         }
         l.sample(J::s("kind=cube;p=402;q=800 (x1 x10 !x11)"));
+    });
+    run.section_seq("MODES format flags and failing sinks: cubes, ecubes over 4 variables; Sop/Esop/Soes of <= 2 terms over 3 variables and two-digit indices", false, "each object printed with 9 flag combinations and into sinks failing after every byte count 0..len, each failure followed by printing the object and a second object again; all texts must read as the object's function", |l| {
+        let mut jobs: Vec<(&str, usize, Key, Key)> = Vec::new();
+        for p in 0..16u32 {
+            for q in 0..16u32 {
+                if p & q == 0 {
+                    jobs.push(("cube", 4, vec![(p, q)], vec![(q, p)]));
+                }
+            }
+            for x in 0..2u32 {
+                jobs.push(("ecube", 4, vec![(p, x)], vec![(p ^ 5, 1 - x)]));
+            }
+        }
+        jobs.push(("cube", 12, vec![(0x402, 0x800)], vec![(0x800, 0x3)]));
+        jobs.push(("ecube", 12, vec![(0xc01, 1)], vec![(0x400, 0)]));
+        let cubes3: Vec<(u32, u32)> = (0..8u32).flat_map(|p| (0..8u32).filter(move |q| p & q == 0).map(move |q| (p, q))).collect();
+        let ecubes3: Vec<(u32, u32)> = (0..8u32).flat_map(|p| [(p, 0), (p, 1)]).collect();
+        for (kind, terms) in [("sop", &cubes3), ("esop", &cubes3), ("soes", &ecubes3)] {
+            let ls = lists(terms, 2);
+            let nl = ls.len();
+            for (i, k) in ls.iter().enumerate() {
+                if i % 5 != 0 && k.len() == 2 {
+                    continue;
+                }
+                jobs.push((kind, 3, k.clone(), ls[(i * 7 + 3) % nl].clone()));
+            }
+            let wide: Key = if kind == "soes" { vec![(0xc00, 1), (0x3, 0)] } else { vec![(0x402, 0x800), (0x1, 0x400)] };
+            let other: Key = if kind == "soes" { vec![(0x2, 0)] } else { vec![(0x2, 0)] };
+            jobs.push((kind, 12, wide.clone(), other.clone()));
+            jobs.push((kind, 12, other, wide));
+        }
+        for (i, (kind, n, a, b)) in jobs.iter().enumerate() {
+            l.states += 1;
+            rec(l, check_modes(kind, *n, a, b), format!("modes|{}|{}|{}|{}", kind, n, show_key(a), show_key(b)), &format!("{}/modes", kind), format!("kind=modes;what={};n={};a={};b={}", kind, n, show_key(a), show_key(b)), i as u64);
+        }
     });
 }
